@@ -333,22 +333,31 @@ Section Filters.
     let cur := match a1 with Some x => x | None => a end in
     Ok (favs cur ar).
 
-  (* Policy.restrict *)
-  Definition restrict (p : cpolicy) (a : ava) (sp : str) (md : option mdview) : result ava :=
+  (* Policy.restrict(ava, sp_entity_id, metadata, best_effort): with best_effort what the SP
+     requires is handed to Policy.filter as wishes (required = [], optional = required + optional) *)
+  Definition restrict_with (best_effort : bool) (p : cpolicy) (a : ava) (sp : str) (md : option mdview) : result ava :=
     match md with
     | Some m => match m_req m with
-                | Some (rq, op) => pfilter p a sp md rq op
+                | Some (rq, op) => if best_effort then pfilter p a sp md [] (rq ++ op)
+                                   else pfilter p a sp md rq op
                 | None => pfilter p a sp md [] []
                 end
     | None => pfilter p a sp None [] []
     end.
 
+  (* the default argument: best_effort=False *)
+  Definition restrict (p : cpolicy) (a : ava) (sp : str) (md : option mdview) : result ava :=
+    restrict_with false p a sp md.
+
   (* Assertion.apply_policy: the dict is narrowed only after restrict returned *)
   Definition narrow (self filtered : ava) : ava :=
     filter_map (fun e => match lookup (fst e) filtered with Some v => Some (fst e, v) | None => None end) self.
 
+  Definition apply_policy_with (best_effort : bool) (p : cpolicy) (self : ava) (sp : str) (md : option mdview) : result ava :=
+    do filtered <- restrict_with best_effort p self sp md; Ok (narrow self filtered).
+
   Definition apply_policy (p : cpolicy) (self : ava) (sp : str) (md : option mdview) : result ava :=
-    do filtered <- restrict p self sp md; Ok (narrow self filtered).
+    apply_policy_with false p self sp md.
 
   (* what a response construction ends in *)
   Inductive outcome :=
@@ -356,8 +365,30 @@ Section Filters.
   | ErrorResponse                (* create_error_response: no assertion *)
   | Raised (e : str).            (* an exception left the entry point *)
 
-  (* Server.setup_assertion *)
+  (* Server.setup_assertion: MissingValue is caught; without best_effort an error response,
+     with best_effort the policy is applied again to the (still untouched) dict with the
+     demands of the SP treated as wishes; an exception of that second call leaves the function *)
   Definition setup_assertion (p : cpolicy) (identity : ava) (sp : str) (md : option mdview)
+             (best_effort : bool) : outcome :=
+    match apply_policy p identity sp md with
+    | Ok a => Asserted a
+    | Err e => if str_eqb e MissingValue
+               then (if best_effort
+                     then match apply_policy_with true p identity sp md with
+                          | Ok a => Asserted a
+                          | Err e' => Raised e'
+                          end
+                     else ErrorResponse)
+               else Raised e
+    end.
+
+  (* Server._authn_response (not pefim) / create_authn_response: best_effort is the literal True *)
+  Definition authn_response (p : cpolicy) (identity : ava) (sp : str) (md : option mdview) : outcome :=
+    setup_assertion p identity sp md true.
+
+  (* HISTORY: Server.setup_assertion before the repair proposed_fix/C07-1: the swallowed
+     MissingValue left the dict untouched and the UNFILTERED identity was asserted *)
+  Definition setup_assertion_before_fix (p : cpolicy) (identity : ava) (sp : str) (md : option mdview)
              (best_effort : bool) : outcome :=
     match apply_policy p identity sp md with
     | Ok a => Asserted a
@@ -367,9 +398,8 @@ Section Filters.
                else Raised e
     end.
 
-  (* Server._authn_response (not pefim) / create_authn_response: best_effort is the literal True *)
-  Definition authn_response (p : cpolicy) (identity : ava) (sp : str) (md : option mdview) : outcome :=
-    setup_assertion p identity sp md true.
+  Definition authn_response_before_fix (p : cpolicy) (identity : ava) (sp : str) (md : option mdview) : outcome :=
+    setup_assertion_before_fix p identity sp md true.
 
   (* Server.create_attribute_response: policy = config "aa" policy (None when not configured) *)
   Definition attribute_response (p : option cpolicy) (identity : ava) (sp : str) (md : option mdview) : outcome :=
